@@ -1450,6 +1450,322 @@ func vC18CaseRefresh(t *testing.T, r *rand.Rand, out *vC18Out, count int) {
 	}
 }
 
+// ---------------------------------------------------------------- scripted scenarios
+//
+// A script is a fixed scenario on one list: API calls, queries, the gate on saveMu,
+// refreshes with or without a downloaded list, a reload. corpus/C18/*.json holds the
+// minimal inputs of every finding and of every seeded change the check caught; they
+// are replayed first on every run. The random "refresh histories" are scripts too.
+
+type vC18Step struct {
+	Do       string   `json:"do"` // set remove setbatch removebatch | exists serve | gate-close gate-open | refresh | reload
+	Keys     []string `json:"keys,omitempty"`
+	Q        string   `json:"q,omitempty"`
+	Qtype    uint16   `json:"qtype,omitempty"`
+	Wire     bool     `json:"wire,omitempty"`
+	Download string   `json:"download,omitempty"`
+}
+
+type vC18CrashSpec struct {
+	Old   []string `json:"old"`
+	Op    vC18Op   `json:"op"`
+	Limit int      `json:"limit"` // bytes; negative: that many bytes before the end of the new file
+	Kill  bool     `json:"kill"`
+}
+
+type vC18Script struct {
+	Name      string         `json:"name"`
+	Why       string         `json:"why,omitempty"`
+	Whitelist []string       `json:"whitelist,omitempty"`
+	Blocklist []string       `json:"blocklist,omitempty"`
+	Steps     []vC18Step     `json:"steps,omitempty"`
+	Crash     *vC18CrashSpec `json:"crash,omitempty"`
+}
+
+type vC18Rec struct {
+	k, coq     string
+	desc       any
+	nontrivial bool
+	goFail     string
+}
+
+func (sc *vC18Script) slow() bool {
+	for _, st := range sc.Steps {
+		if st.Do == "refresh" {
+			return true
+		}
+	}
+	return false
+}
+
+// run one script; dirs are handed in because vC18Dir is not safe to call from several goroutines
+func vC18RunScript(sc *vC18Script, dir, refDir string, kprefix string) (recs []vC18Rec, fatal string) {
+	cfg := &config.Config{Nullroute: "0.0.0.0", Nullroutev6: "::0", BlockListDir: dir, Whitelist: sc.Whitelist, Blocklist: sc.Blocklist}
+	b := vC18NewQuiet(cfg)
+	ref := vC18NewQuiet(&config.Config{BlockListDir: refDir, Whitelist: sc.Whitelist, Blocklist: sc.Blocklist})
+	m0, wild0, w := vC18Dump(b)
+	nr := vC18IPNum(net.ParseIP(cfg.Nullroute), true)
+	nr6 := vC18IPNum(net.ParseIP(cfg.Nullroutev6), false)
+	var parts []string // rhstep terms
+	var hparts []string
+	var desc []any
+	refreshed := false
+	dirty := false // remote entries in memory that no saving call has written yet
+	gated := false
+	anyOK := false
+	goFail := ""
+	var waiting []chan int
+	var rets []int
+	sig := func(x *BlockList) string {
+		xm, xw, _ := vC18Dump(x)
+		return fmt.Sprintf("%q %q", xm, xw)
+	}
+	for _, st := range sc.Steps {
+		switch st.Do {
+		case "set", "remove", "setbatch", "removebatch":
+			op := vC18Op{st.Do, st.Keys}
+			before := sig(ref)
+			ret := op.apply(ref)
+			if !gated {
+				if got := op.apply(b); got != ret {
+					goFail = fmt.Sprintf("%v returned %d, reference list %d", op, got, ret)
+				}
+			} else {
+				done := make(chan int, 1)
+				go func() { done <- op.apply(b) }()
+				switch {
+				case ret == 0:
+					select {
+					case got := <-done:
+						if got != 0 {
+							goFail = fmt.Sprintf("%v returned %d under the gate, reference list 0", op, got)
+						}
+					case <-time.After(30 * time.Second):
+						b.saveMu.Unlock()
+						return nil, fmt.Sprintf("a call that changes nothing blocks on saveMu: %v", op)
+					}
+				case sig(ref) == before:
+					b.saveMu.Unlock()
+					return nil, fmt.Sprintf("script %s: %v succeeds without changing memory; not usable under the gate", sc.Name, op)
+				default:
+					for spins := 0; sig(b) != sig(ref); spins++ {
+						time.Sleep(100 * time.Microsecond)
+						if spins > 300000 {
+							b.saveMu.Unlock()
+							return nil, fmt.Sprintf("mutation of %v never became visible", op)
+						}
+					}
+					waiting = append(waiting, done)
+					rets = append(rets, ret)
+				}
+			}
+			if ret > 0 {
+				anyOK = true
+				dirty = false // a saving call writes the whole memory, remote entries included
+			}
+			parts = append(parts, fmt.Sprintf("RHOp (%s) %d%%N", op.coq(), ret))
+			hparts = append(hparts, fmt.Sprintf("(%s, %d%%N)", op.coq(), ret))
+			desc = append(desc, []any{st.Do, st.Keys, "returns", ret})
+		case "gate-close":
+			b.saveMu.Lock()
+			gated = true
+			desc = append(desc, "saveMu held by the driver")
+		case "gate-open":
+			b.saveMu.Unlock()
+			gated = false
+			for i, d := range waiting {
+				if got := <-d; got != rets[i] {
+					goFail = fmt.Sprintf("queued call returned %d, reference %d", got, rets[i])
+				}
+			}
+			waiting, rets = nil, nil
+			desc = append(desc, "saveMu released, queued calls returned")
+		case "refresh":
+			dl := []string{}
+			if st.Download != "" {
+				if err := os.WriteFile(filepath.Join(dir, "remote.example-0a1b2c.1.tmp"), []byte(st.Download), 0o644); err != nil {
+					return nil, err.Error()
+				}
+				_ = os.WriteFile(filepath.Join(refDir, "remote.example-0a1b2c.1.tmp"), []byte(st.Download), 0o644)
+				dl = []string{st.Download}
+			}
+			refDone := make(chan struct{})
+			go func() { ref.refreshRemote(); close(refDone) }()
+			b.refreshRemote()
+			<-refDone
+			refreshed = true
+			if st.Download != "" {
+				dirty = true
+			}
+			parts = append(parts, fmt.Sprintf("RHRefresh %s", vC18List(dl)))
+			desc = append(desc, []any{"refreshRemote", "downloaded", st.Download})
+		case "exists":
+			m, wild, _ := vC18Dump(b)
+			got := b.Exists(st.Q)
+			gf := ""
+			if want, ok := vC18Ref(m, wild, w, st.Q); ok && want != got {
+				gf = fmt.Sprintf("Exists(%q) = %v, whole-label reference matcher says %v", st.Q, got, want)
+			}
+			recs = append(recs, vC18Rec{kprefix + "exists", fmt.Sprintf("CaseExists %s %s %s [(%s, %v)]", vC18List(m), vC18List(wild), vC18List(w), vC18Str(st.Q), got),
+				map[string]any{"script": sc.Name, "m": m, "wild": wild, "w": w, "exists": []any{st.Q, got}}, true, gf})
+		case "serve":
+			m, wild, _ := vC18Dump(b)
+			o, d, seen := vC18Serve(b, dns.Fqdn(st.Q), st.Qtype, st.Wire)
+			if o == "" {
+				continue
+			}
+			d["m"], d["wild"], d["w"], d["script"] = m, wild, w, sc.Name
+			gf := ""
+			if want, ok := vC18Ref(m, wild, w, seen); ok && want != strings.HasPrefix(o, "OReply") {
+				gf = fmt.Sprintf("query %q: reference matcher says blocked=%v, handler outcome %s", seen, want, o)
+			}
+			recs = append(recs, vC18Rec{kprefix + "serve", fmt.Sprintf("CaseServe %s %s %s %s%%N %s%%N %s %d%%N (%s)", vC18List(m), vC18List(wild), vC18List(w), nr, nr6, vC18Str(seen), st.Qtype, o), d, true, gf})
+		case "reload":
+			present, file := vC18ReadLocal(dir)
+			if !present || len(sc.Blocklist) > 0 || dirty {
+				continue
+			}
+			m, wild, _ := vC18Dump(b)
+			nb := New(&config.Config{Nullroute: "0.0.0.0", Nullroutev6: "::0", BlockListDir: dir, Whitelist: sc.Whitelist})
+			rm, rwild, rw := vC18Dump(nb)
+			if left, _ := filepath.Glob(filepath.Join(dir, "local.tmp.*")); len(left) > 0 {
+				goFail = "temp file of a persist survives the restart"
+			}
+			recs = append(recs, vC18Rec{kprefix + "reload", fmt.Sprintf("CaseReload %s [] [%s] %s %s %s %s %s", vC18List(sc.Whitelist), vC18Str(file), vC18List(m), vC18List(wild),
+				vC18List(rm), vC18List(rwild), vC18List(rw)),
+				map[string]any{"script": sc.Name, "file": file, "memory_m": m, "memory_wild": wild, "reloaded_m": rm, "reloaded_wild": rwild}, true, ""})
+		default:
+			return nil, "script " + sc.Name + ": unknown step " + st.Do
+		}
+	}
+	if gated {
+		b.saveMu.Unlock()
+		for _, d := range waiting {
+			<-d
+		}
+	}
+	m1, wild1, _ := vC18Dump(b)
+	present, file := vC18ReadLocal(dir)
+	d := map[string]any{"script": sc.Name, "why": sc.Why, "whitelist": sc.Whitelist, "blocklist": sc.Blocklist, "steps": desc, "m1": m1, "wild1": wild1, "file_present": present, "file": file}
+	if len(hparts) > 0 {
+		if refreshed {
+			recs = append(recs, vC18Rec{kprefix + "refresh-history", fmt.Sprintf("CaseRHistory %s %s %s [%s] %s %s %s", vC18List(m0), vC18List(wild0), vC18List(w), strings.Join(parts, "; "),
+				vC18List(m1), vC18List(wild1), vC18OptStr(present, file)), d, anyOK, goFail})
+		} else {
+			recs = append(recs, vC18Rec{kprefix + "history", fmt.Sprintf("CaseHistory %s %s %s [%s] %s %s %s", vC18List(m0), vC18List(wild0), vC18List(w), strings.Join(hparts, "; "),
+				vC18List(m1), vC18List(wild1), vC18OptStr(present, file)), d, anyOK, goFail})
+		}
+	}
+	return recs, ""
+}
+
+// run scripts; the ones that contain a refresh (1 s timer each) side by side
+func vC18RunScripts(t *testing.T, out *vC18Out, scripts []*vC18Script, kprefix string) {
+	type res struct {
+		recs  []vC18Rec
+		fatal string
+	}
+	results := make([]res, len(scripts))
+	dirs := make([][2]string, len(scripts))
+	for i := range scripts {
+		dirs[i] = [2]string{vC18Dir(t), vC18Dir(t)}
+	}
+	var wg sync.WaitGroup
+	for i, sc := range scripts {
+		if sc.Crash != nil {
+			continue
+		}
+		if sc.slow() {
+			wg.Add(1)
+			go func(i int, sc *vC18Script) {
+				defer wg.Done()
+				r, f := vC18RunScript(sc, dirs[i][0], dirs[i][1], kprefix)
+				results[i] = res{r, f}
+			}(i, sc)
+		} else {
+			r, f := vC18RunScript(sc, dirs[i][0], dirs[i][1], kprefix)
+			results[i] = res{r, f}
+		}
+	}
+	wg.Wait()
+	for i, sc := range scripts {
+		if sc.Crash != nil {
+			vC18RunCrash(t, out, kprefix, sc.Whitelist, sc.Crash.Old, sc.Crash.Op, sc.Crash.Limit, sc.Crash.Kill, sc.Name)
+			continue
+		}
+		if results[i].fatal != "" {
+			t.Fatalf("script %s: %s", sc.Name, results[i].fatal)
+		}
+		for _, rec := range results[i].recs {
+			out.emit(rec.k, rec.coq, rec.desc, rec.nontrivial, rec.goFail, "")
+		}
+	}
+}
+
+func vC18LoadCorpus(t *testing.T) []*vC18Script {
+	dir := os.Getenv("VERIF_CORPUS")
+	if dir == "" {
+		return nil
+	}
+	names, _ := filepath.Glob(filepath.Join(dir, "*.json"))
+	sort.Strings(names)
+	var out []*vC18Script
+	for _, n := range names {
+		data, err := os.ReadFile(n)
+		if err != nil {
+			t.Fatal(err)
+		}
+		sc := new(vC18Script)
+		if err := json.Unmarshal(data, sc); err != nil {
+			t.Fatalf("corpus file %s: %v", n, err)
+		}
+		if sc.Name == "" {
+			sc.Name = filepath.Base(n)
+		}
+		out = append(out, sc)
+	}
+	return out
+}
+
+// random histories of API calls and refreshes that bring remote lists, some of which
+// list the very names the calls remove
+func vC18RandRefreshScripts(r *rand.Rand, count int) []*vC18Script {
+	var out []*vC18Script
+	for i := 0; i < count; i++ {
+		pool := vC18KeyPool(r, "", false)
+		sc := &vC18Script{Name: fmt.Sprintf("random-refresh-history-%d", i), Whitelist: vC18Whitelist(r, pool)}
+		nref := 0
+		for j := 0; j < 3+r.Intn(5); j++ {
+			if nref < 2 && j > 0 && r.Intn(3) == 0 {
+				var sb strings.Builder
+				for k := 0; k < r.Intn(3); k++ {
+					sb.WriteString("0.0.0.0 remote-" + vC18Name(r) + "\n")
+				}
+				for k := 0; k < r.Intn(3); k++ { // names the API also handles
+					sb.WriteString(vC18Spell(r, pool[r.Intn(len(pool))]) + "\n")
+				}
+				sc.Steps = append(sc.Steps, vC18Step{Do: "refresh", Download: sb.String()})
+				nref++
+				continue
+			}
+			op := vC18RandOp(r, pool)
+			if len(op.Keys) == 0 {
+				continue
+			}
+			sc.Steps = append(sc.Steps, vC18Step{Do: op.Kind, Keys: op.Keys})
+			if r.Intn(4) == 0 {
+				sc.Steps = append(sc.Steps, vC18Step{Do: "serve", Q: strings.TrimPrefix(vC18Spell(r, pool[r.Intn(len(pool))]), "*."), Qtype: vC18Qtypes[r.Intn(len(vC18Qtypes))], Wire: r.Intn(2) == 0})
+			}
+		}
+		if nref == 0 {
+			sc.Steps = append(sc.Steps, vC18Step{Do: "refresh", Download: vC18Spell(r, pool[0]) + "\n"})
+		}
+		sc.Steps = append(sc.Steps, vC18Step{Do: "reload"})
+		out = append(out, sc)
+	}
+	return out
+}
+
 // ---------------------------------------------------------------- interruption
 
 type vC18ChildSpec struct {
@@ -1498,114 +1814,129 @@ func TestVerifC18Child(t *testing.T) {
 	os.Exit(0)
 }
 
-func vC18CaseCrash(t *testing.T, r *rand.Rand, out *vC18Out, kill bool) {
+// one interruption scenario with everything given: the previous list (written by the
+// real code from oldKeys), the interrupted call, the size limit. limit < 0: that many
+// bytes before the end of the new file. Returns false when the call changes nothing.
+func vC18RunCrash(t *testing.T, out *vC18Out, kprefix string, whitelist, oldKeys []string, op vC18Op, limit int, kill bool, name string) bool {
+	return vC18RunCrashWith(t, out, kprefix, whitelist, oldKeys, op, func(total int) int {
+		if limit < 0 {
+			if total+limit < 0 {
+				return 0
+			}
+			return total + limit
+		}
+		return limit
+	}, kill, name)
+}
+
+func vC18RunCrashWith(t *testing.T, out *vC18Out, kprefix string, whitelist, oldKeys []string, op vC18Op, limitFn func(total int) int, kill bool, name string) bool {
 	dir := vC18Dir(t)
+	cfg := &config.Config{Nullroute: "0.0.0.0", Nullroutev6: "::0", BlockListDir: dir, Whitelist: whitelist}
+	b := vC18NewQuiet(cfg)
+	if b.SetBatch(oldKeys) == 0 {
+		return false
+	}
+	_, old := vC18ReadLocal(dir)
+	// reference run on a copy of the directory, to know that the call changes
+	// something and how long the new file is
+	refDir := vC18Dir(t)
+	if err := os.WriteFile(filepath.Join(refDir, "local"), []byte(old), 0o644); err != nil {
+		t.Fatal(err)
+	}
+	ref := vC18NewQuiet(&config.Config{BlockListDir: refDir, Whitelist: whitelist})
+	oldM, oldWild, _ := vC18Dump(ref)
+	if op.apply(ref) == 0 {
+		return false
+	}
+	newM, newWild, _ := vC18Dump(ref)
+	_, nf := vC18ReadLocal(ref.cfg.BlockListDir)
+	total := len(nf)
+	limit := limitFn(total)
+	spec := vC18ChildSpec{Dir: dir, Whitelist: whitelist, Op: op, Limit: uint64(limit), Kill: kill}
+	raw, _ := json.Marshal(spec)
+	cmd := exec.Command(os.Args[0], "-test.run", "^TestVerifC18Child$", "-test.count=1")
+	cmd.Env = append(os.Environ(), "VERIF_C18_CHILD="+string(raw))
+	err := cmd.Run()
+	killed := false
+	if ee, ok := err.(*exec.ExitError); ok {
+		if ws, ok := ee.Sys().(syscall.WaitStatus); ok && ws.Signaled() && ws.Signal() == syscall.SIGXFSZ {
+			killed = true
+		} else {
+			// could not set up the limit (exit 3) or died otherwise: infrastructure
+			b, _ := json.Marshal(map[string]any{"k": "crash-setup", "inconclusive": true, "desc": fmt.Sprint(err)})
+			out.f.Write(append(b, '\n'))
+			return true
+		}
+	}
+	present, local := vC18ReadLocal(dir)
+	names, _ := filepath.Glob(filepath.Join(dir, "local.tmp.*"))
+	sort.Strings(names)
+	var temps []string
+	for _, n := range names {
+		data, _ := os.ReadFile(n)
+		temps = append(temps, string(data))
+	}
+	nb := New(&config.Config{Nullroute: "0.0.0.0", Nullroutev6: "::0", BlockListDir: dir, Whitelist: whitelist})
+	rm, rwild, _ := vC18Dump(nb)
+	hl := len("# The file generated by auto. DO NOT EDIT\n")
+	k := "crash-midwrite"
+	if !killed {
+		k = "crash-none"
+	} else if limit <= hl {
+		k = "crash-in-header"
+	} else if len(temps) == 1 && strings.HasSuffix(temps[0], "\n") {
+		k = "crash-at-line-end"
+	}
+	goFail := ""
+	if left, _ := filepath.Glob(filepath.Join(dir, "local.tmp.*")); len(left) > 0 {
+		goFail = fmt.Sprintf("%d temp file(s) of an interrupted persist survive the restart", len(left))
+	}
+	ctor := "CaseCrash"
+	if !kill {
+		// the process survived: the write failed with EFBIG and persist() had to clean up
+		ctor = "CaseIoErr"
+		k = "ioerr-write-fails"
+		if limit >= total {
+			k = "ioerr-none"
+		}
+	}
+	out.emit(kprefix+k, fmt.Sprintf(ctor+" %s %s (%s) %d %s %s %s %s %s %s %s %s", vC18List(whitelist), vC18Str(old), op.coq(), limit,
+		vC18OptStr(present, local), vC18List(temps), vC18List(rm), vC18List(rwild),
+		vC18List(oldM), vC18List(oldWild), vC18List(newM), vC18List(newWild)),
+		map[string]any{"script": name, "whitelist": whitelist, "old_file": old, "op": []any{op.Kind, op.Keys}, "limit": limit, "killed_by_SIGXFSZ": killed,
+			"local_after": local, "temp_files_after": temps, "reloaded_m": rm, "reloaded_wild": rwild,
+			"previous_m": oldM, "previous_wild": oldWild, "new_m": newM, "new_wild": newWild}, true, goFail, "")
+	return true
+}
+
+func vC18CaseCrash(t *testing.T, r *rand.Rand, out *vC18Out, kill bool) {
 	pool := vC18KeyPool(r, "", false)
 	whitelist := vC18Whitelist(r, pool)
-	// the previous complete file, written by the real code
-	cfg := vC18Cfg(r, dir)
-	cfg.Whitelist = whitelist
-	b := vC18NewQuiet(cfg)
 	nold := 1 + r.Intn(4)
 	var oldKeys []string
 	for i := 0; i < nold; i++ {
 		oldKeys = append(oldKeys, pool[r.Intn(len(pool))])
 	}
-	if b.SetBatch(oldKeys) == 0 {
-		return
-	}
-	_, old := vC18ReadLocal(dir)
-	// the interrupted call: must change something
-	var op vC18Op
-	for try := 0; ; try++ {
-		op = vC18RandOp(r, pool)
-		// reference run on a copy of the directory, to know that the call changes
-		// something and how long the new file is
-		refDir := vC18Dir(t)
-		if err := os.WriteFile(filepath.Join(refDir, "local"), []byte(old), 0o644); err != nil {
-			t.Fatal(err)
+	hl := len("# The file generated by auto. DO NOT EDIT\n")
+	for try := 0; try < 20; try++ {
+		op := vC18RandOp(r, pool)
+		if len(op.Keys) == 0 {
+			continue
 		}
-		ref := vC18NewQuiet(&config.Config{BlockListDir: refDir, Whitelist: whitelist})
-		oldM, oldWild, _ := vC18Dump(ref)
-		if op.apply(ref) > 0 {
-			newM, newWild, _ := vC18Dump(ref)
-			_, nf := vC18ReadLocal(ref.cfg.BlockListDir)
-			total := len(nf)
-			var limit int
+		if vC18RunCrashWith(t, out, "", whitelist, oldKeys, op, func(total int) int {
 			switch x := r.Intn(10); {
 			case x == 0:
-				limit = 0
+				return 0
 			case x == 1:
-				limit = total + r.Intn(3) // no interruption
+				return total + r.Intn(3) // no interruption
 			case x == 2:
-				limit = r.Intn(len("# The file generated by auto. DO NOT EDIT\n") + 1)
-			default:
-				hl := len("# The file generated by auto. DO NOT EDIT\n")
-				if total > hl {
-					limit = hl + r.Intn(total-hl)
-				} else {
-					limit = r.Intn(total)
-				}
+				return r.Intn(hl + 1)
 			}
-			spec := vC18ChildSpec{Dir: dir, Whitelist: whitelist, Op: op, Limit: uint64(limit), Kill: kill}
-			raw, _ := json.Marshal(spec)
-			cmd := exec.Command(os.Args[0], "-test.run", "^TestVerifC18Child$", "-test.count=1")
-			cmd.Env = append(os.Environ(), "VERIF_C18_CHILD="+string(raw))
-			err := cmd.Run()
-			killed := false
-			if ee, ok := err.(*exec.ExitError); ok {
-				if ws, ok := ee.Sys().(syscall.WaitStatus); ok && ws.Signaled() && ws.Signal() == syscall.SIGXFSZ {
-					killed = true
-				} else {
-					// could not set up the limit (exit 3) or died otherwise: infrastructure
-					b, _ := json.Marshal(map[string]any{"k": "crash-setup", "inconclusive": true, "desc": fmt.Sprint(err)})
-					out.f.Write(append(b, '\n'))
-					return
-				}
+			if total > hl {
+				return hl + r.Intn(total-hl)
 			}
-			present, local := vC18ReadLocal(dir)
-			names, _ := filepath.Glob(filepath.Join(dir, "local.tmp.*"))
-			sort.Strings(names)
-			var temps []string
-			for _, n := range names {
-				data, _ := os.ReadFile(n)
-				temps = append(temps, string(data))
-			}
-			ncfg := vC18Cfg(r, dir)
-			ncfg.Whitelist = whitelist
-			nb := New(ncfg)
-			rm, rwild, _ := vC18Dump(nb)
-			k := "crash-midwrite"
-			if !killed {
-				k = "crash-none"
-			} else if limit <= len("# The file generated by auto. DO NOT EDIT\n") {
-				k = "crash-in-header"
-			} else if len(temps) == 1 && strings.HasSuffix(temps[0], "\n") {
-				k = "crash-at-line-end"
-			}
-			fkey := ""
-			goFail := ""
-			if left, _ := filepath.Glob(filepath.Join(dir, "local.tmp.*")); len(left) > 0 {
-				goFail = fmt.Sprintf("%d temp file(s) of an interrupted persist survive the restart", len(left))
-			}
-			ctor := "CaseCrash"
-			if !kill {
-				// the process survived: the write failed with EFBIG and persist() had to clean up
-				ctor = "CaseIoErr"
-				k = "ioerr-write-fails"
-				if limit >= total {
-					k = "ioerr-none"
-				}
-			}
-			out.emit(k, fmt.Sprintf(ctor+" %s %s (%s) %d %s %s %s %s %s %s %s %s", vC18List(whitelist), vC18Str(old), op.coq(), limit,
-				vC18OptStr(present, local), vC18List(temps), vC18List(rm), vC18List(rwild),
-				vC18List(oldM), vC18List(oldWild), vC18List(newM), vC18List(newWild)),
-				map[string]any{"whitelist": whitelist, "old_file": old, "op": []any{op.Kind, op.Keys}, "limit": limit, "killed_by_SIGXFSZ": killed,
-					"local_after": local, "temp_files_after": temps, "reloaded_m": rm, "reloaded_wild": rwild,
-					"previous_m": oldM, "previous_wild": oldWild, "new_m": newM, "new_wild": newWild}, true, goFail, fkey)
-			return
-		}
-		if try > 20 {
+			return r.Intn(total)
+		}, kill, "") {
 			return
 		}
 	}
@@ -1627,7 +1958,18 @@ func TestVerifC18(t *testing.T) {
 	seed := int64(vC18EnvInt("VERIF_SEED", 1))
 	n := vC18EnvInt("VERIF_N", 400)
 	r := rand.New(rand.NewSource(seed*1000003 + 18))
-	// a handful of refresh scenarios first (they run side by side, about one second in all)
+	// the corpus first
+	vC18RunScripts(t, out, vC18LoadCorpus(t), "corpus-")
+	// random histories with refreshes that bring remote lists (side by side, about two seconds)
+	nrh := 8
+	if os.Getenv("VERIF_TIER") == "thorough" {
+		nrh = 40
+	}
+	if n < 100 {
+		nrh = 2
+	}
+	vC18RunScripts(t, out, vC18RandRefreshScripts(r, nrh), "")
+	// a handful of refresh scenarios (they run side by side, about one second in all)
 	nref := 6
 	if os.Getenv("VERIF_TIER") == "thorough" {
 		nref = 24
